@@ -302,6 +302,26 @@ pub enum Trace {
 
 /// Execute a scenario on one fresh generator, on the calling thread.
 pub fn run_scenario(sc: &Scenario, trace: Trace, spy: bool) -> Vec<CallRecord> {
+    if let Some(st) = &sc.steer {
+        // resolve the steering recipe into a concrete fuzzer script (executes the generator on the
+        // growing prefixes, in this process), then run that
+        let ops: Vec<&'static str> = st.ops.iter().filter_map(|n| crate::lexer::by_name(n).map(|i| i.name)).collect();
+        let prog = crate::synth::Program { ops };
+        let Some(mut script) = crate::synth::steer(sc.config.protocol, &prog) else {
+            return vec![];
+        };
+        let mut n = prog.ops.len();
+        if let Some(b) = st.tail {
+            script.push(b);
+            n += 1;
+        }
+        let mut resolved = sc.clone();
+        resolved.steer = None;
+        resolved.config.min_opcodes = n;
+        resolved.config.max_opcodes = n;
+        resolved.history = vec![HOp::Gen(Entropy::Bytes(script))];
+        return run_scenario(&resolved, trace, spy);
+    }
     verif::set_hash_key(sc.hash_key);
     let log = Arc::new(Mutex::new(Vec::new()));
     // seed: the generator takes the seed of the first rand-mode call; later rand calls with a
